@@ -6,6 +6,7 @@ pub mod gen;
 pub mod json;
 pub mod model;
 pub mod obs;
+pub mod ops;
 pub mod rng;
 pub mod tbl;
 pub mod twolevel;
